@@ -1,3 +1,4 @@
+import LZ4V.Proofs.FastMain
 import LZ4V.Proofs.Arith
 /-!
 # C09 — block compressors honour the destination-capacity contract (specification + regenerated bound part)
@@ -30,5 +31,16 @@ example : (serialize [] (List.replicate 300 0)).length = 303 ∧ LZ4_compressBou
   rw [serialize_length, serLast_length, ext_length, List.length_replicate]
   simp only [List.map_nil, List.sum_nil]
   rw [if_pos (by omega)]
+
+/-- **The fast compressor (model) never needs more than the bound**: every block it returns, with or without an output
+    limit, is at most `n + n/255 + 2` bytes, hence within `LZ4_compressBound(n)` (regenerated), for every input, hash
+    function, table size and acceleration -/
+theorem fast_compressor_within_bound (P : LZ4V.Model.Fast.Params) (src : Array UInt8) (tableSize : Nat)
+    (hb : P.byU16 = true → src.size < 65547) (ha : 1 ≤ P.accel) (blk : List UInt8)
+    (h : LZ4V.Model.Fast.compress P src tableSize = some blk) (hn : src.size ≤ LZ4_MAX_INPUT_SIZE) :
+    (blk.length : Int) ≤ LZ4_compressBound (src.size : Int) := by
+  rw [LZ4V.Arith.compressBound_eq _ hn]
+  have := LZ4V.Model.Fast.compress_size P src tableSize hb ha blk h
+  omega
 
 end LZ4V.C09
